@@ -24,7 +24,10 @@ RULE = ('a case = (program model, allocator variant). the model (fprog/gen_scc.p
         '(exact text); enough storage: the generated overflow guard (STOP) must not fire, -fcheck=bounds must not trap on a stack '
         'array, the candidate must compile. EcstackPoolAllocatorTransformation needs an external module: not claimed. '
         'non-trivial = at least one temporary was hoisted or replaced by stack storage (read off the transformed IR) AND at least 2 '
-        'kernels; distinct by hash of (model, variant)')
+        'kernels; distinct by hash of (model, variant). the construct that triggers a LISTED known finding (TRIGGER_SIGS / '
+        'case_triggers) is generated only by its committed hand-written replay, draws that asked for it are counted as excluded; the '
+        'triggers of the C37 findings about the SCC stage are switched off in the model; three hand-written regression programs '
+        '(replays/C38/regress-*.json) are evaluated on every run')
 ASSUMPTIONS = ['gfortran 12 -O0 with -fcheck=bounds,do -ftrapv -ffpe-trap -fcray-pointer is the reference semantics; !$acc / !$omp lines '
                'are comments',
                'the PROGRAM that initialises the fields, calls the driver and prints never passes through loki',
